@@ -2,6 +2,7 @@
 from __future__ import annotations
 
 import atexit
+import os
 import re
 import shutil
 import tempfile
@@ -74,8 +75,9 @@ def h_positions(ctx):
     else:
         from src.linters.srp.config import SRPConfig
         from src.linters.srp.typescript_analyzer import TypeScriptSRPAnalyzer
+        ctx.assume(row <= 4)       # the source text is sliced by row: bounded, enumerated by forking
         node = Duck("class_declaration", "class S {}", [Duck("type_identifier", "S"), Duck("class_body", "{}")], start=(row, col), end=(row, col))
-        m = TypeScriptSRPAnalyzer().analyze_class(node, "class S {}\n", SRPConfig())
+        m = TypeScriptSRPAnalyzer().analyze_class(node, "\n\n\n\n\nclass S {}\n", SRPConfig())
         line, colv = m["line"], m.get("column", col)
     ctx.cover(site)
     ctx.require("line-is-one-based-row", Eq(line, row + 1), site=site)
@@ -109,7 +111,8 @@ _P = {}
 
 
 def _proj():
-    if "d" not in _P:
+    if _P.get("pid") != os.getpid():
+        _P["pid"] = os.getpid()
         d = tempfile.mkdtemp(prefix="c12proj-")
         atexit.register(shutil.rmtree, d, True)
         (Path(d) / ".git").mkdir()
